@@ -7,6 +7,7 @@ CONSTANTS
   InitSet = {1, 2, 3}
   InitSigner = 2
   MaxNumber = 1000
+  UpgradeSets = {{1, 2, 3}, {2, 4, 5, 6, 7}, {3}, {4, 5, 6}}
   Depth = 14
 INVARIANTS Emit
 CHECK_DEADLOCK FALSE
